@@ -186,7 +186,11 @@ func stacklessWriteGzip(ctx any) {
 	stacklessWriteGzipOnce.Do(func() {
 		stacklessWriteGzipFunc = stackless.NewFunc(nonblockingWriteGzip)
 	})
-	stacklessWriteGzipFunc(ctx)
+	if !stacklessWriteGzipFunc(ctx) {
+		// The stackless queue is full (high load): compress on the
+		// caller's stack instead of silently producing no output.
+		nonblockingWriteGzip(ctx)
+	}
 }
 
 func nonblockingWriteGzip(ctxv any) {
@@ -293,7 +297,11 @@ func stacklessWriteDeflate(ctx any) {
 	stacklessWriteDeflateOnce.Do(func() {
 		stacklessWriteDeflateFunc = stackless.NewFunc(nonblockingWriteDeflate)
 	})
-	stacklessWriteDeflateFunc(ctx)
+	if !stacklessWriteDeflateFunc(ctx) {
+		// The stackless queue is full (high load): compress on the
+		// caller's stack instead of silently producing no output.
+		nonblockingWriteDeflate(ctx)
+	}
 }
 
 func nonblockingWriteDeflate(ctxv any) {
